@@ -66,7 +66,7 @@ def gen(rng, tier):
 # zvariant's signature parser accepts signatures outside the D-Bus grammar (non-basic dict keys, more than 32
 # nested arrays / structs), so the decoder accepts containers of such types.  The cases below stay OFF until the
 # third output column of DBus/Run.v names the class (`de_class`, see docs/C03.md): without it they print VIOLATION.
-LENIENT_SIG_CASES = False
+LENIENT_SIG_CASES = True
 
 
 def _pad(buf, pos, al):
